@@ -408,11 +408,14 @@ def iterjoin(left, right, lkey, rkey, leftouter=False, rightouter=False,
     # loop until *either* of the iterators is exhausted
     # initialise here to handle empty tables
     lkval, rkval = Comparable(None), Comparable(None)
+    rempty = False
     try:
 
         # pick off initial row groups
         lkval, lrowgrp = next(lgit)
+        rempty = True  # unless the next line finds a right group
         rkval, rrowgrp = next(rgit)
+        rempty = False
 
         while True:
             if lkval < rkval:
@@ -439,7 +442,7 @@ def iterjoin(left, right, lkey, rkey, leftouter=False, rightouter=False,
 
     # make sure any left rows remaining are yielded
     if leftouter:
-        if lkval > rkval:
+        if rempty or lkval > rkval:
             # yield anything that got left hanging
             for row in joinrows(lrowgrp, None):
                 yield tuple(row)
@@ -623,11 +626,14 @@ def iterantijoin(left, right, lkey, rkey):
 
     # loop until *either* of the iterators is exhausted
     lkval, rkval = Comparable(None), Comparable(None)
+    rempty = False
     try:
 
         # pick off initial row groups
         lkval, lrowgrp = next(lgit)
+        rempty = True  # unless the next line finds a right group
         rkval, _ = next(rgit)
+        rempty = False
 
         while True:
             if lkval < rkval:
@@ -647,7 +653,7 @@ def iterantijoin(left, right, lkey, rkey):
         pass
 
     # any left over?
-    if lkval > rkval:
+    if rempty or lkval > rkval:
         # yield anything that got left hanging
         for row in lrowgrp:
             yield tuple(row)
